@@ -120,7 +120,12 @@ def r20_1(ctx):
         has_guard(ctx, g, lambda t, k: "self.parameters.values()" in t and t.startswith("not") and k == "raise", "Stage.set_value: non-parameter rejected", "set_value on non-parameter", "if not any(parameter in p ...): raise")
     for cname in ("SamplingMethod", "DirectMethod"):
         f = P.own_method(cname, "set_value")
-        has_guard(ctx, f, lambda t, k: t == "found" and k == "assert", "%s.set_value: non-parameter rejected after transcription" % cname, "set_value on non-parameter after transcription", "assert found")
+        from .c09 import parameter_scenario
+        sc_ = parameter_scenario(ctx, cname)
+        if sc_["error"]:
+            raise AnalysisError("%s.set_value could not be simulated: %s" % (cname, sc_["error"]))
+        ctx.check(sc_["reject"] == "rejected", "%s.set_value: non-parameter rejected after transcription" % cname, detail="set_value on non-parameter after transcription",
+                  expected="an assertion / exception when no declared parameter matches", found=sc_["reject"], fi=f)
     # 8. set_initial on a parameter / unknown symbol
     f = P.own_method("Stage", "set_initial")
     for g in nested_functions(f).values():
